@@ -46,8 +46,13 @@ pub const REAL_FONTS: &[(&str, &str)] = &[
 // generated fonts: everything derives from the seed in the font id `gen-<seed>`
 // ------------------------------------------------------------------------------------------
 
-fn gen_font(seed: u64) -> Vec<u8> {
+/// `extras` (font ids `gx-<seed>`): boundary material drawn from a SEPARATE random stream (so
+/// that `gen-<seed>` fonts never change): components and cmap entries pointing at glyph ids the
+/// font does not have (numGlyphs, numGlyphs+k, 0xFFFF), a deep composite chain, composites that
+/// carry WE_HAVE_INSTRUCTIONS with word arguments and a 2x2 transform.
+fn gen_font(seed: u64, extras: bool) -> Vec<u8> {
     let mut r = Rng::new(seed ^ 0xC12C12);
+    let mut x = Rng::new(seed ^ 0x0E87_7A5C_12);
     let ng = 6 + r.below(70) as usize;
     let long_loca = r.chance(1, 2);
     let cyclic = r.chance(1, 8);
@@ -108,6 +113,42 @@ fn gen_font(seed: u64) -> Vec<u8> {
             pad: 0,
         };
     }
+    if extras && ng >= 8 {
+        // a chain  ng-3 -> ng-4 -> … of depth 4..ng-4 ending in a simple glyph
+        if x.chance(1, 2) {
+            let depth = 4 + x.below((ng as u64 - 7).max(1)) as usize;
+            let top = ng - 3;
+            for d in 0..depth.min(top - 1) {
+                let i = top - d;
+                glyphs[i] = GenGlyph::Composite {
+                    comps: vec![GenComp { gid: (i - 1) as u16, style: x.below(6) as u8, dx: d as i16, dy: -(d as i16) }],
+                    instr: if x.chance(1, 2) { vec![7; 1 + x.below(6) as usize] } else { vec![] },
+                    pad: x.below(2) as usize,
+                };
+            }
+        }
+        // components that reference glyphs the font does not have
+        let n = 1 + x.below(3) as usize;
+        for _ in 0..n {
+            let i = 3 + x.below(ng as u64 - 3) as usize;
+            let missing = match x.below(4) {
+                0 => 0xFFFF,
+                1 => ng as u16,
+                2 => ng as u16 + 1 + x.below(40) as u16,
+                _ => 0xFFFE,
+            };
+            let keep = GenComp { gid: x.below(3) as u16, style: 5, dx: 300, dy: -300 };
+            glyphs[i] = GenGlyph::Composite {
+                comps: if x.chance(1, 2) {
+                    vec![keep, GenComp { gid: missing, style: x.below(6) as u8, dx: 1, dy: 2 }]
+                } else {
+                    vec![GenComp { gid: missing, style: x.below(6) as u8, dx: 1, dy: 2 }, keep]
+                },
+                instr: if x.chance(1, 2) { vec![9; 1 + x.below(4) as usize] } else { vec![] },
+                pad: 0,
+            };
+        }
+    }
     let adv: Vec<u16> = (0..ng).map(|_| 200 + r.below(1800) as u16).collect();
     let lsb: Vec<i16> = (0..ng).map(|_| r.range(-50, 200) as i16).collect();
     let nhm = if r.chance(1, 2) { ng as u16 } else { 1 + r.below(ng as u64) as u16 };
@@ -128,6 +169,17 @@ fn gen_font(seed: u64) -> Vec<u8> {
         };
         cmap.push((cp, 1 + r.below(ng as u64 - 1) as u16));
     }
+    if extras && cmap_fmt == 4 && x.chance(1, 2) {
+        // cmap entries beyond numGlyphs (a reader that does not cross-check maxp keeps them)
+        for _ in 0..1 + x.below(3) {
+            let g = match x.below(3) {
+                0 => 0xFFFF,
+                1 => ng as u16,
+                _ => ng as u16 + x.below(100) as u16,
+            };
+            cmap.push((0x2100 + x.below(0x80) as u32, g));
+        }
+    }
     cmap.sort();
     cmap.dedup_by_key(|p| p.0);
     let truncate = if r.chance(1, 10) { 1 + r.below(60) as usize } else { 0 };
@@ -144,12 +196,18 @@ fn gen_font(seed: u64) -> Vec<u8> {
         upem: *r.pick(&[1000u16, 2048, 1024]),
     };
     // file size: small (no pad), or steered around the 100 000-byte threshold
-    let target: usize = match r.below(8) {
+    let target: usize = if extras {
+        match x.below(4) {
+            0 => 100_000,
+            1 => 100_001 + x.below(3) as usize,
+            _ => 100_004 + x.below(30_000) as usize,
+        }
+    } else { match r.below(8) {
         0 => 0,
         1 => 99_997 + r.below(3) as usize,
         2 | 3 => 100_000 + r.below(3) as usize,
         _ => 100_004 + r.below(40_000) as usize,
-    };
+    } };
     let l0 = build_font(&f).len();
     if target > l0 + 24 {
         f.pad_table = (target - l0 - 16) & !3;
@@ -187,7 +245,9 @@ pub fn font_bytes(id: &str) -> Option<Arc<Vec<u8>>> {
         return v.clone();
     }
     let v = if let Some(seed) = id.strip_prefix("gen-") {
-        seed.parse::<u64>().ok().map(|s| Arc::new(gen_font(s)))
+        seed.parse::<u64>().ok().map(|s| Arc::new(gen_font(s, false)))
+    } else if let Some(seed) = id.strip_prefix("gx-") {
+        seed.parse::<u64>().ok().map(|s| Arc::new(gen_font(s, true)))
     } else {
         let repo = std::env::var("VERIF_REPO").unwrap_or_else(|_| "/repo".into());
         REAL_FONTS
@@ -337,7 +397,7 @@ fn file_segs(bytes: &[u8], s: &Sfnt, cl: &BTreeSet<u16>, whole_tables: bool) -> 
 
 /// byte-level fields of a request (empty when the closure is too large to ship the bytes)
 fn byte_fields(id: &str, bytes: &[u8], s: &Sfnt, cl: &BTreeSet<u16>) -> String {
-    let gen = id.starts_with("gen-");
+    let gen = id.starts_with("gen-") || id.starts_with("gx-");
     if !gen && cl.len() > 48 {
         return String::new();
     }
@@ -606,7 +666,7 @@ fn gen(rng: &mut Rng, tier: Tier) -> Vec<Case> {
     let nfonts = if thorough { 700 } else { 110 };
     for _ in 0..nfonts {
         let seed = rng.below(1 << 40);
-        let id = format!("gen-{}", seed);
+        let id = if rng.chance(1, 3) { format!("gx-{}", seed) } else { format!("gen-{}", seed) };
         let Some(fi) = info(&id) else { continue };
         let per = 1 + rng.below(3);
         for _ in 0..per {
@@ -627,8 +687,32 @@ fn gen(rng: &mut Rng, tier: Tier) -> Vec<Case> {
         }
         if rng.chance(1, 2) {
             let k = 1 + rng.below(5) as usize;
-            let gids: Vec<u16> = (0..k).map(|_| rng.below(fi.ng as u64) as u16).collect();
+            let mut gids: Vec<u16> = (0..k).map(|_| rng.below(fi.ng as u64) as u16).collect();
+            if id.starts_with("gx-") && rng.chance(1, 2) {
+                // glyph ids the font does not have: numGlyphs, beyond, 0xFFFF
+                gids.push(*rng.pick(&[fi.ng, fi.ng + 7, 0xFFFE, 0xFFFF]));
+            }
             push(make_tg(&id, &gids), "gen-tt by-gids");
+        }
+        if id.starts_with("gx-") {
+            // every composite of the font through the char-driven API (chains, missing components)
+            if let Some(bytes) = font_bytes(&id) {
+                if let Ok(s) = Sfnt::parse(&bytes) {
+                    let comp: Vec<u32> = fi
+                        .cmap
+                        .iter()
+                        .filter(|p| p.1 >= fi.ng || matches!(s.glyph_desc_lenient(p.1), Some(GlyphDesc::Composite(..))))
+                        .map(|p| p.0)
+                        .collect();
+                    if !comp.is_empty() {
+                        let k = 1 + rng.below(comp.len().min(4) as u64) as usize;
+                        let mut used: Vec<u32> = (0..k).map(|_| *rng.pick(&comp)).collect();
+                        used.sort();
+                        used.dedup();
+                        push(make_tt(&id, &used, true), "gx-tt composite-boundary");
+                    }
+                }
+            }
         }
         // damaged font (glyf cut short): request a character whose glyph lies beyond the file so
         // that `renumber_and_build` fails and the unfiltered-cmap fallback is taken
